@@ -657,7 +657,7 @@ fn sized_message(r: &mut Rng, target: usize, by_options: bool) -> Option<Packet>
                 p.add_option(CoapOption::from(*r.pick(&[4u16, 11, 15, 300])), r.bytes(l));
             }
         }
-        let base = p.to_bytes_unlimited().ok()?.len();
+        let base = guarded(|| p.to_bytes_unlimited())?.ok()?.len();
         let rest = target.checked_sub(base)?;
         if rest == 1 {
             return None;
